@@ -419,6 +419,14 @@ public:
       return 0;
     }
 
+    // A non-positive interval re-arms the record at or before the time it just
+    // fired, so collectDueLocked() would find it due again forever.
+    if (interval <= Duration::zero())
+    {
+      handleError(TimerError::InvalidTimeout, "Periodic interval must be positive", 0);
+      return 0;
+    }
+
     auto deadline = Clock::now() + interval;
 
     if (!isValidTimeout(deadline))
